@@ -80,6 +80,12 @@ _A5_FIXED = (
     "            self.untrack_region_objects(handle)\n"
 )
 
+_A21_FIXED = (
+    "        if old_region_state is not None and old_region_state.lookup_localid(old_local_id) is not obj:\n"
+    "            old_region_state = None\n"
+    "        region_changed = old_region_handle != new_region_handle or old_region_state is None\n"
+)
+
 VARIANTS = [
     # ---- R1 ownership
     {"name": "R1 localid_lookup written in _handle_object_update", "file": OM, "expect": "C14.R1",
@@ -429,6 +435,45 @@ VARIANTS = [
      "old": _A5_FIXED,
      "new": "        for manager in tuple(self._region_managers.values()):\n            manager.clear()\n"
             "        for handle in tuple(self._region_managers.keys()):\n            self.untrack_region_objects(handle)\n"},
+    # ---- audit round 2 (reverts are inapplicable until the fix is committed)
+    {"name": "R2 ownership taken from the region handles again (audit-2 fix reverted)", "expect": "C14.R2",
+     "edits": [
+         {"file": OM, "old": _A21_FIXED, "new": "        region_changed = old_region_handle != new_region_handle\n"},
+     ]},
+    {"name": "P R2 ownership asked of the index through localid_lookup.get into a flag", "file": OM, "expect": "silent",
+     "old": _A21_FIXED,
+     "new": "        owned = old_region_state is not None and old_region_state.localid_lookup.get(old_local_id) is obj\n"
+            "        if not owned:\n            old_region_state = None\n"
+            "        region_changed = old_region_handle != new_region_handle or not owned\n"},
+    # ---- refactor round 8
+    {"name": "P R8 object-state table named before it is handed to the dispatcher", "file": TMPL, "expect": "silent",
+     "old": "        super().__init__(\n"
+            "            # PCode is only a name when reading in plain-data mode\n"
+            "            lambda ctx: PCode[ctx.PCode] if isinstance(ctx.PCode, str) else ctx.PCode, child_spec, {\n"
+            "                PCode.AVATAR: se.IntFlag(AgentState),\n"
+            "                PCode.PRIMITIVE: AttachmentStateAdapter(None),\n"
+            "                # Other cases are probably just a number (tree species ID or something.)\n"
+            "                se.MISSING: se.IdentityAdapter(),\n            }\n        )\n",
+     "new": "        by_pcode = {\n"
+            "            PCode.AVATAR: se.IntFlag(AgentState),\n"
+            "            PCode.PRIMITIVE: AttachmentStateAdapter(None),\n"
+            "            se.MISSING: se.IdentityAdapter(),\n        }\n"
+            "        super().__init__(\n"
+            "            lambda ctx: PCode[ctx.PCode] if isinstance(ctx.PCode, str) else ctx.PCode, child_spec, by_pcode)\n"},
+    {"name": "R8 named object-state table without a default row", "file": TMPL, "expect": "C14.R8",
+     "old": "        super().__init__(\n"
+            "            # PCode is only a name when reading in plain-data mode\n"
+            "            lambda ctx: PCode[ctx.PCode] if isinstance(ctx.PCode, str) else ctx.PCode, child_spec, {\n"
+            "                PCode.AVATAR: se.IntFlag(AgentState),\n"
+            "                PCode.PRIMITIVE: AttachmentStateAdapter(None),\n"
+            "                # Other cases are probably just a number (tree species ID or something.)\n"
+            "                se.MISSING: se.IdentityAdapter(),\n            }\n        )\n",
+     "new": "        by_pcode = {\n"
+            "            PCode.AVATAR: se.IntFlag(AgentState),\n"
+            "            PCode.PRIMITIVE: AttachmentStateAdapter(None),\n"
+            "            PCode.TREE: se.IdentityAdapter(),\n        }\n"
+            "        super().__init__(\n"
+            "            lambda ctx: PCode[ctx.PCode] if isinstance(ctx.PCode, str) else ctx.PCode, child_spec, by_pcode)\n"},
     # ---- documented limits
     {"name": "X missing_locals bookkeeping dropped (not observed by the statement)", "file": OM, "expect": "miss",
      "old": "        self.missing_locals -= {obj.LocalID}\n", "new": ""},
